@@ -290,8 +290,27 @@ def r1_r2_service(ctx, svc, fi: FuncInfo) -> None:
             return False
         return True
       has_state = has_state or all_paths(lambda a: a.get(lambda k: f'{trialv}.state' in k and 'SUCCEEDED' in k and '==' in k))
-      has_subset = has_subset or all_paths(lambda a: a.get(lambda k: 'issubset' in k and 'metric' in k))
-      has_nan = has_nan or all_paths(lambda a: (a.get(lambda k: 'isnan' in k) is False) or (a.get(lambda k: 'isfinite' in k) is True))
+      has_subset = has_subset or all_paths(lambda a: a.get(lambda k: 'issubset' in k and 'metric' in k)) \
+          or all_paths(lambda a: a.get(lambda k: k.startswith('all(') and ' in ' in k and 'metric' in k))
+      def nan_ok_on(p_) -> bool:
+        dec_ = pathcond.conditions(p_)
+        ok_, _ = pathcond.implies(dec_, lambda a: (a.get(lambda k: 'isnan' in k) is False) or (a.get(lambda k: 'isfinite' in k) is True))
+        if ok_:
+          return True
+        # a path that never enters the loop over the configured metrics has no objective value that could be NaN
+        atoms_ = set()
+        for t_, _pol in dec_:
+          pathcond.atoms_of(t_, atoms_)
+        if any('isnan' in k or 'isfinite' in k for k in atoms_):
+          return False
+        on_path = {n_.id for n_, _ in p_}
+        for h_ in g.nodes:
+          if h_.kind == 'for' and h_.id in on_path and any('isnan' in unparse(x_, 0) for x_ in ast.walk(h_.ast) if isinstance(x_, ast.Call)):
+            body_first = {m_.id for m_, lab_ in h_.succs if m_.loops and m_.loops[-1] is h_.ast}
+            if not (body_first & on_path):
+              return True
+        return False
+      has_nan = has_nan or (bool(pths) and all(nan_ok_on(p_) for p_ in pths))
   ctx.check(has_state, 'R1', 'considered only if state == SUCCEEDED', c,
             'append is control-dependent on trial.state == SUCCEEDED',
             'infeasible / unfinished trials can enter the candidate set', construct='state-filter', func=fi.qualname)
@@ -330,8 +349,12 @@ def r1_r2_service(ctx, svc, fi: FuncInfo) -> None:
       if isinstance(n, ast.IfExp):
         t_arm, f_arm = [n.body], [n.orelse]
       else:
-        t_arm = [st.value for st in n.body if isinstance(st, ast.Assign)]
-        f_arm = [st.value for st in n.orelse if isinstance(st, ast.Assign)]
+        def arm_values(stmts):
+          out = [st.value for st in stmts if isinstance(st, ast.Assign)]
+          out += [st.value.args[0] for st in stmts if isinstance(st, ast.Expr) and isinstance(st.value, ast.Call)
+                  and isinstance(st.value.func, ast.Attribute) and st.value.func.attr == 'append' and len(st.value.args) == 1]
+          return out
+        t_arm, f_arm = arm_values(n.body), arm_values(n.orelse)
       if isinstance(op, ast.NotEq):
         t_arm, f_arm = f_arm, t_arm
       if any(negated(x) for x in t_arm) and any(plain(x) for x in f_arm) and not any(negated(x) for x in f_arm):
@@ -388,19 +411,36 @@ def r3_service(ctx, fi: FuncInfo) -> None:
   for n in ast.walk(fi.node):
     if isinstance(n, ast.ListComp) and isinstance(n.elt, ast.ListComp):
       target = n
-  if target is None:
-    raise AnalysisError('ListOptimalTrials: nested dominance comprehension not found')
-  outer_v = target.generators[0].target.id
-  inner_v = target.elt.generators[0].target.id
-  pred_e = target.elt.elt
-  # variable that holds the matrix, then the reduction
-  asg = None
-  for a in ancestors(target):
-    if isinstance(a, ast.Assign):
-      asg = a
-  if asg is None:
-    raise AnalysisError('dominance matrix is not assigned to a variable')
-  mat = asg.targets[0].id
+  mat = None
+  if target is not None:
+    outer_v = target.generators[0].target.id
+    inner_v = target.elt.generators[0].target.id
+    pred_e = target.elt.elt
+    # variable that holds the matrix, then the reduction
+    asg = None
+    for a in ancestors(target):
+      if isinstance(a, ast.Assign):
+        asg = a
+    if asg is None:
+      raise AnalysisError('dominance matrix is not assigned to a variable')
+    mat = asg.targets[0].id
+  else:
+    # loop form: `M[j, i] = PRED` (or `M[j][i] = PRED`) inside two nested loops over the points: M[row][column]
+    for n in ast.walk(fi.node):
+      if isinstance(n, ast.Assign) and len(n.targets) == 1 and isinstance(n.targets[0], ast.Subscript):
+        t = n.targets[0]
+        idx = None
+        if isinstance(t.slice, ast.Tuple) and len(t.slice.elts) == 2 and all(isinstance(x, ast.Name) for x in t.slice.elts) \
+            and isinstance(t.value, ast.Name):
+          idx, base = [x.id for x in t.slice.elts], t.value.id
+        elif isinstance(t.value, ast.Subscript) and isinstance(t.slice, ast.Name) and isinstance(t.value.slice, ast.Name) \
+            and isinstance(t.value.value, ast.Name):
+          idx, base = [t.value.slice.id, t.slice.id], t.value.value.id
+        loops_ = [a for a in ancestors(n) if isinstance(a, ast.For) and isinstance(a.target, ast.Name)]
+        if idx and len(loops_) >= 2 and {idx[0], idx[1]} <= {l.target.id for l in loops_} and idx[0] != idx[1]:
+          outer_v, inner_v, pred_e, mat = idx[0], idx[1], n.value, base
+    if mat is None:
+      raise AnalysisError('ListOptimalTrials: dominance matrix (nested comprehension or M[j, i] = ... in nested loops) not found')
   red_axis = None
   negated = False
   for n in ast.walk(fi.node):
